@@ -126,6 +126,22 @@ def c16_jobs(tier):
     return jobs
 
 
+def c10_jobs(tier):
+    def shards(depth, before, after, R, kinds, ibefore, iafter, **kw):
+        out = []
+        for nb in range(before):
+            for k in range(kinds + 1 if depth > 0 else kinds):
+                for ell in range(2):
+                    p = {"depth": depth, "before": before, "after": after, "R": R, "kinds": kinds, "ibefore": ibefore, "iafter": iafter,
+                         "force.tnb": nb, "force.tb_0k": k, "force.tell": ell}
+                    out.append(J("ast", "ZZ_C10_expand", **p, **kw))
+        return out
+    if tier == "quick":
+        return shards(1, 2, 1, 2, 2, 1, 0, timeout_s=280)
+    return (shards(1, 2, 1, 3, 4, 1, 1, timeout_s=3300) + shards(2, 1, 1, 2, 2, 1, 1, timeout_s=3300)
+            + shards(1, 2, 1, 2, 2, 2, 1, timeout_s=3300) + shards(0, 3, 1, 3, 4, 0, 0, timeout_s=3300))
+
+
 def c12_jobs(tier):
     jobs = []
     for w in (1, 2, 4, 8, 0, 3):
@@ -162,6 +178,11 @@ def c13_jobs(tier):
 
 
 PROPS = {
+    "C10": dict(jobs=c10_jobs,
+                level_text="Bounded exhaustive symbolic exploration: every list template within the bound (item kinds, ellipsis positions, nesting are decisions) x every assignment of repeat counts 0..R or unfilled, compared with a reference expander written from the documentation.",
+                level_note="Structural property: exhaustiveness is over templates/assignments within the bound. '...' and '...[0]' are both accepted for a single remaining ellipsis. Trusted: go/ssa, engine, the reference expander (harness/ast/c10.go).",
+                bounds={"quick": "two levels of lists; top level <=2 items before and <=1 after an ellipsis, nested lists 1 item before and none after an ellipsis; item menu {constant, <I1 v>, nested list}; repeat counts 0..2 or unfilled", "thorough": "item menu of 4 leaf kinds, R<=3; three levels; nested lists with 2 items before"},
+                outside=["larger templates and repeat counts (the property's 'randomly beyond')", "negative repeat counts"]),
     "C16": dict(jobs=c16_jobs,
                 level_text="Bounded exhaustive symbolic exploration of tree shapes (every choice of kinds, variable positions, ellipsis positions is a decision explored by the engine) under three map iteration orders; Variables() is compared with the construction order and with the names tokenised from String().",
                 level_note="Structural property: the solver decides feasibility of shape choices only; exhaustiveness is over shapes and iteration orders within the bound. Trusted: go/ssa, engine, harness tokenizer.",
